@@ -78,12 +78,14 @@ pub trait Bits {
 }
 impl Bits for f64 {
     fn bits(&self) -> String {
-        format!("x{:016x}", self.to_bits())
+        // one bit pattern for every NaN: sign and payload of a NaN are not part of any property (and may differ between
+        // run-time arithmetic and compile-time folding)
+        format!("x{:016x}", if self.is_nan() { 0x7ff8_0000_0000_0000u64 } else { self.to_bits() })
     }
 }
 impl Bits for f32 {
     fn bits(&self) -> String {
-        format!("y{:08x}", self.to_bits())
+        format!("y{:08x}", if self.is_nan() { 0x7fc0_0000u32 } else { self.to_bits() })
     }
 }
 impl<T: Bits> Bits for Decomposition<T> {
